@@ -61,6 +61,11 @@ Inductive xbody :=
 | XNone                                       (* no body *)
 | XProps (t : tagreq) (l : list (N * option N)).   (* set (Some v) / remove (None), in order *)
 
+(* the other REPORTs of app/report.py: calendar-query, addressbook-query, sync-collection (without a token) and
+   free-busy-query.  `flt` is the request's filter as a predicate on the stored objects (None: the request has no
+   C:filter / CR:filter element; for free-busy: no C:time-range); the theorems quantify over it. *)
+Inductive qkind := QCal | QAdr | QSync | QFreeBusy.
+
 Inductive request :=
 | RPut (p : path) (ct : ctype) (b : body) (if_match : cond) (if_none_match_star : bool)
 | RDelete (p : path) (if_match : cond)
@@ -70,7 +75,8 @@ Inductive request :=
 | RProppatch (p : path) (x : xbody)
 | RGet (p : path)
 | RPropfind (p : path) (depth1 : bool)
-| RMultiget (p : path) (cal : bool) (hrefs : list path).
+| RMultiget (p : path) (cal : bool) (hrefs : list path)
+| RQuery (p : path) (k : qkind) (flt : option (obj -> bool)).
 
 Inductive status :=
 | S200 | S201 | S204 | S207 | S400 | S403NA | S403F | S403Dir | S403Report | S404 | S405 | S409 | S409Uid | S409Null | S412 | S500 | S502.
@@ -85,7 +91,8 @@ Inductive payload :=
 | PEtag (e : etag)
 | PItem (o : obj)
 | PExport (t : tag) (l : list obj)
-| PListing (l : list entry).
+| PListing (l : list entry)
+| PBusy (l : list obj).              (* free-busy answer: the events whose periods it is computed from *)
 
 Definition response := (status * payload)%type.
 
@@ -486,6 +493,64 @@ Definition do_multiget (pol : policy) (s : store) (p : path) (cal : bool) (hrefs
                      (if whole then map (fun no => EItemE (cp ++ [fst no]) (snd no) false) (c_items c) else [])))
   end.
 
+(* ---- REPORT calendar-query / addressbook-query / sync-collection / free-busy-query ---- (app/report.py)
+   do_REPORT: access.check("r") -> 403; discover: nothing -> 404; access.check("r", item) -> 403; collection := the
+   target or the collection of the target item.
+   free-busy-query: collection.tag != VCALENDAR -> 403 supported-report; a missing C:time-range fails an assert (500);
+     the answer is computed from the VEVENT items of the collection that pass the time-range filter.
+   xml_report: sync-collection on a collection that is neither calendar nor address book -> 403 supported-report
+     (the two query reports have NO tag test); hreferences = every name of the collection (sync without token) or
+     (path,); retrieve_items: an item reference -> get_multi -> (item, False); the collection itself ->
+     get_filtered(filters), which yields nothing for a collection without tag; then every candidate that was not
+     pre-matched goes through test_filter when the request has a filter: that raises ValueError (400) when the filter
+     does not suit the collection's tag (no tag at all; comp-filter on an address book; prop-filter on a calendar). *)
+Definition is_event (o : obj) : bool := match o_comp o with CEvent => true | _ => false end.
+Definition style_ok (k : qkind) (t : tag) : bool :=
+  match k, t with
+  | QAdr, TAdr => true
+  | QAdr, _ => false
+  | _, TCal => true
+  | _, _ => false
+  end.
+Definition do_query (pol : policy) (s : store) (p : path) (k : qkind) (flt : option (obj -> bool)) : response :=
+  if negb (check pol p lr NoItem) then (S403NA, PNone) else
+  let item := resolve s p in
+  match item with
+  | NNothing => (S404, PNone)
+  | _ =>
+    if negb (check pol p lr (kind_of item)) then (S403NA, PNone) else
+    let '(cp, c) := match item with
+                    | NColl c => (p, c)
+                    | NItem pc _ => (parent p, pc)
+                    | NNothing => (p, mkColl TNone [] [])
+                    end in
+    match k with
+    | QFreeBusy =>
+        if negb (tag_eqb (c_tag c) TCal) then (S403Report, PNone) else
+        match flt with
+        | None => (S500, PNone)
+        | Some sel => (S200, PBusy (filter (fun o => is_event o && sel o) (map snd (c_items c))))
+        end
+    | _ =>
+        let untagged := tag_eqb (c_tag c) TNone in
+        if (match k with QSync => true | _ => false end) && untagged then (S403Report, PNone) else
+        let cands : list (name * obj) :=
+          match k, item with
+          | QSync, _ => c_items c
+          | _, NItem _ o => [(last_name p, o)]
+          | _, _ => if untagged then [] else c_items c
+          end in
+        let listing (l : list (name * obj)) := PListing (map (fun no => EItemE (cp ++ [fst no]) (snd no) false) l) in
+        match flt with
+        | None => (S207, listing cands)
+        | Some sel =>
+            if negb (style_ok k (c_tag c)) && negb (match cands with [] => true | _ => false end)
+            then (S400, PNone)
+            else (S207, listing (filter (fun no => sel (snd no)) cands))
+        end
+    end
+  end.
+
 (* ---- the gate's automatic home creation (app/__init__.py) and dispatch ---- *)
 Definition ensure_home (pol : policy) (s : store) (user : option name) : store :=
   match user with
@@ -509,6 +574,7 @@ Definition handle (cfg : config) (pol : policy) (user : option name) (s0 : store
   | RGet p => (s, do_get pol s p)
   | RPropfind p d => (s, do_propfind pol s p d)
   | RMultiget p cal hs => (s, do_multiget pol s p cal hs)
+  | RQuery p k flt => (s, do_query pol s p k flt)
   end.
 
 Fixpoint run_history (cfg : config) (pol : policy) (user : option name) (s : store) (rs : list request)
